@@ -30,7 +30,10 @@ class Universe:
         self.w = nw
         prio = prio or default_prio(self.n)
         self.prio = list(prio)
-        self.tasks = [pj.Task(ids[i], name="t%d" % (i + 1), prio=prio[i], mix=prio[i] or None) for i in range(self.n)]
+        # every task gets its OWN int object as id (int(str(..)): equal ids are equal numbers, not the same object -
+        # small ints are shared by the interpreter anyway, large ones are not)
+        self.tasks = [pj.Task(int(str(ids[i])), name="t%d" % (i + 1), prio=prio[i], mix=prio[i] or None)
+                      for i in range(self.n)]
         self.wbs = [pj.WBS() for _ in range(nw)]
         # long-lived list handles grabbed before any mutation; calls with via=1 go through them
         self.handles = [t.children for t in self.tasks] + [w.roots for w in self.wbs]
